@@ -198,9 +198,20 @@ func (rt *runtime) cmplEvaluateNodeForInStatement(node *nodeForInStatement) Valu
 
 	result := emptyValue
 	obj := sourceObject
+	visited := map[string]struct{}{}
 	for obj != nil {
 		enumerateValue := emptyValue
-		obj.enumerate(false, func(name string) bool {
+		current := obj
+		obj.enumerate(true, func(name string) bool {
+			// 12.6.4: a property shadowed by an object nearer in the prototype
+			// chain is not visited again, even when the nearer one is not enumerable.
+			if _, seen := visited[name]; seen {
+				return true
+			}
+			visited[name] = struct{}{}
+			if prop := current.getOwnProperty(name); prop == nil || !prop.enumerable() {
+				return true
+			}
 			into := rt.cmplEvaluateNodeExpression(into)
 			// In the case of: for (var abc in def) ...
 			if into.reference() == nil {
@@ -215,7 +226,9 @@ func (rt *runtime) cmplEvaluateNodeForInStatement(node *nodeForInStatement) Valu
 				case valueResult:
 					switch value.evaluateBreakContinue(labels) {
 					case resultReturn:
-						enumerateValue = value
+						// the statement is left: do not go on with the prototype
+						result = value
+						obj = nil
 						return false
 					case resultBreak:
 						obj = nil
